@@ -37,6 +37,15 @@ def _worker(args):
         return {'__harness_error__': f'{type(e).__name__}: {e}', 'tb': traceback.format_exc()[-1500:]}
 
 
+def _limit_worker():
+    try:
+        import resource
+        cap = int(os.environ.get('VERIF_WORKER_MEM_MB', '6000')) * 1024 * 1024
+        resource.setrlimit(resource.RLIMIT_AS, (cap, cap))
+    except Exception:
+        pass
+
+
 def run_impl(P, cases):
     """run the implementation on all cases (forked workers; frappy is imported inside them)"""
     if not cases:
@@ -45,7 +54,9 @@ def run_impl(P, cases):
     if getattr(P, 'SERIAL', False) or len(cases) < 8 or jobs == 1:
         return [_worker((P.__name__, c)) for c in cases]
     ctx = mp.get_context('fork')
-    with ctx.Pool(min(jobs, 16)) as pool:
+    # workers are recycled after a few chunks and capped in address space, so that a leak in a property's driver
+    # cannot exhaust the machine (checks of several properties may run at the same time)
+    with ctx.Pool(min(jobs, 16), initializer=_limit_worker, maxtasksperchild=2) as pool:
         return pool.map(_worker, [(P.__name__, c) for c in cases], chunksize=max(1, len(cases) // (jobs * 8)))
 
 
